@@ -63,6 +63,45 @@ type gen2 struct {
 	size    int          // rough instruction budget
 }
 
+// SIMD operators whose results are fully determined by the specification for every bit pattern of the operands
+// (integer operators, bitwise operators, float comparisons/abs/neg/pmin/pmax, conversions from integers and saturating
+// truncations); float arithmetic and rounding are left out because the payload of a NaN result is not determined.
+var simdBin, simdUn, simdShift, simdToI32 []uint64
+
+func init() {
+	rg := func(dst *[]uint64, lo, hi uint64) {
+		for o := lo; o <= hi; o++ {
+			*dst = append(*dst, o)
+		}
+	}
+	rg(&simdBin, 0x23, 0x4c) // integer and float comparisons
+	rg(&simdBin, 0xd6, 0xdb)
+	rg(&simdBin, 0x4e, 0x51) // and andnot or xor
+	simdBin = append(simdBin, 0x0e, 0x65, 0x66, 0x85, 0x86) // swizzle, narrow
+	rg(&simdBin, 0x6e, 0x73)
+	rg(&simdBin, 0x76, 0x79)
+	simdBin = append(simdBin, 0x7b, 0x82, 0x82, 0x82)
+	rg(&simdBin, 0x8e, 0x93)
+	rg(&simdBin, 0x95, 0x99)
+	rg(&simdBin, 0x9b, 0x9f)
+	simdBin = append(simdBin, 0xae, 0xb1)
+	rg(&simdBin, 0xb5, 0xba)
+	rg(&simdBin, 0xbc, 0xbf)
+	simdBin = append(simdBin, 0xce, 0xd1, 0xd5)
+	rg(&simdBin, 0xdc, 0xdf)
+	simdBin = append(simdBin, 0xea, 0xeb, 0xf6, 0xf7) // pmin pmax
+	simdUn = append(simdUn, 0x4d, 0x60, 0x61, 0x62, 0x7c, 0x7d, 0x7e, 0x7f, 0x80, 0x81)
+	rg(&simdUn, 0x87, 0x8a)
+	simdUn = append(simdUn, 0xa0, 0xa1)
+	rg(&simdUn, 0xa7, 0xaa)
+	simdUn = append(simdUn, 0xc0, 0xc1)
+	rg(&simdUn, 0xc7, 0xca)
+	simdUn = append(simdUn, 0xe0, 0xe1, 0xec, 0xed) // float abs/neg
+	rg(&simdUn, 0xf8, 0xff)                          // trunc_sat and convert
+	simdShift = append(simdShift, 0x6b, 0x6c, 0x6d, 0x8b, 0x8c, 0x8d, 0xab, 0xac, 0xad, 0xcb, 0xcc, 0xcd)
+	simdToI32 = append(simdToI32, 0x53, 0x63, 0x64, 0x83, 0x84, 0xa3, 0xa4, 0xc3, 0xc4)
+}
+
 var numTypes = []byte{c.I32, c.I64, c.F32, c.F64, c.V128}
 var allTypes = []byte{c.I32, c.I64, c.F32, c.F64, c.V128, c.FuncRef, c.ExternRef}
 
@@ -298,7 +337,7 @@ func (g *gen2) e(t byte, d int) []byte {
 			case 2:
 				return c.Cat(g.e(c.V128, d-1), simd(24+uint32(g.r.Intn(2)), byte(g.r.Intn(8))))
 			default:
-				return c.Cat(g.e(c.V128, d-1), simd(uint32(g.r.Pick([]uint64{83, 163, 100}))))
+				return c.Cat(g.e(c.V128, d-1), simd(uint32(g.r.Pick(simdToI32))))
 			}
 		case 13: // memory.grow by 0 or 1
 			return c.Cat(c.I32Const(int32(g.r.Intn(2))), []byte{0x40, 0x00})
@@ -385,10 +424,9 @@ func (g *gen2) e(t byte, d int) []byte {
 			}
 			return c.Cat(g.constOf(c.F64), simd(20))
 		case 3:
-			op := uint32(g.r.Pick([]uint64{78, 79, 80, 81, 110, 142, 174, 177, 181, 206, 209, 35, 55}))
-			return c.Cat(g.e(t, d-1), g.e(t, d-1), simd(op))
+			return c.Cat(g.e(t, d-1), g.e(t, d-1), simd(uint32(g.r.Pick(simdBin))))
 		case 4:
-			return c.Cat(g.e(t, d-1), simd(77))
+			return c.Cat(g.e(t, d-1), simd(uint32(g.r.Pick(simdUn))))
 		case 5:
 			return c.Cat(g.e(t, d-1), g.e(t, d-1), g.e(t, d-1), simd(82))
 		case 6:
@@ -412,7 +450,7 @@ func (g *gen2) e(t byte, d int) []byte {
 			}
 			return c.Cat(g.e(t, d-1), g.e(t, d-1), simd(13, lanes...))
 		case 9:
-			return c.Cat(g.e(t, d-1), g.e(c.I32, d-1), simd(171))
+			return c.Cat(g.e(t, d-1), g.e(c.I32, d-1), simd(uint32(g.r.Pick(simdShift))))
 		}
 	case c.FuncRef, c.ExternRef:
 		if ts := g.tablesOf(t); len(ts) > 0 && g.r.Bool() {
